@@ -233,18 +233,23 @@ static void hostile_depth(vf::Ctx& c)
 {
 	static const int depths[] = {600, 1000, 3000, 10000, 30000, 100000};
 	int d = depths[c.idx % 6];
-	int form = (int)(c.idx / 6) % 4;
+	int form = (int)(c.idx / 6) % 8;
 	std::string text;
 	if (form == 0) text = std::string(d, '[');
 	else if (form == 1) text = std::string(d, '[') + std::string(d, ']');
 	else if (form == 2) { for (int i = 0; i < d; i++) text += "{\"a\":"; }
-	else { for (int i = 0; i < d; i++) text += "{\"a\":"; text += "1"; text += std::string(d, '}'); }
+	else if (form == 3) { for (int i = 0; i < d; i++) text += "{\"a\":"; text += "1"; text += std::string(d, '}'); }
+	else if (form == 4) { for (int i = 0; i < d; i++) text += "a{b="; }                                         // XDL class-tagged objects
+	else if (form == 5) { for (int i = 0; i < d; i++) text += "a{b="; text += "1"; text += std::string(d, '}'); }
+	else if (form == 6) { for (int i = 0; i < d; i++) text += (i & 1) ? "T{x=" : "["; text += "Y"; for (int i = d - 1; i >= 0; i--) text += (i & 1) ? "}" : "]"; }
+	else { for (int i = 0; i < d; i++) text += (i % 3 == 0) ? "[" : (i % 3 == 1) ? "{\"k\":" : "c{v:"; text += "null"; for (int i = d - 1; i >= 0; i--) text += (i % 3 == 0) ? "]" : "}"; }
 	c.desc(vf::fmt("hostile nesting depth %d form %d", d, form));
 	{
 		Var v = Json::decode(String(text.c_str(), (int)text.size()));
 		c.count(v.ok() ? "deep_hostile_accepted" : "deep_hostile_rejected");
+		if (v.ok() && d >= 3000) c.count("deep_hostile_accepted_beyond_3000");
 	}
-	c.distinct((uint64_t)d * 4 + form);
+	c.distinct((uint64_t)d * 8 + form);
 	if (c.want_sample()) c.sample(c.curdesc());
 }
 
